@@ -115,6 +115,7 @@ type State struct {
 	notes   map[string]bool
 	dead    bool
 	steps   int
+	infeasible bool
 	havocAll string // non-empty: the whole heap was havocked (by what)
 }
 
@@ -126,6 +127,8 @@ type DryInfo struct {
 }
 
 type ModSet struct {
+	bases   map[string]map[string]bool // heap -> base refs stored to
+	whole   map[string]bool            // heap arrays replaced wholesale
 	heaps   map[string]bool
 	cells   map[int]bool
 	ghosts  map[string]bool
@@ -136,7 +139,7 @@ type ModSet struct {
 }
 
 func newModSet() *ModSet {
-	return &ModSet{heaps: map[string]bool{}, cells: map[int]bool{}, ghosts: map[string]bool{}, globals: map[string]bool{}, calls: map[string]bool{}}
+	return &ModSet{bases: map[string]map[string]bool{}, whole: map[string]bool{}, heaps: map[string]bool{}, cells: map[int]bool{}, ghosts: map[string]bool{}, globals: map[string]bool{}, calls: map[string]bool{}}
 }
 
 func copyMap[K comparable, V any](m map[K]V) map[K]V {
